@@ -22,7 +22,9 @@ CONFIG = {'assumptions': [
     'harness (DIE decoding is property C04); every list section comes from the Coq encoders',
     'address size of the units, of the v5 unit-block headers and the container default address size agree; a unit '
     'and the unit block its DW_AT_*lists_base points into use the same DWARF format (DWARF 5 section 7.4)',
-    'a list item that carries location-view pairs is referenced together with DW_AT_GNU_locviews; lists do not overlap',
+    'a list item that carries location-view pairs is referenced together with DW_AT_GNU_locviews; list items do not '
+    'overlap, but an attribute or an offset-table slot may designate the 2nd.. entry of an item (a list sharing the tail '
+    'of another one): it is fetched and enumerated as a list of its own (Spec/C07Sections.v designated)',
     'iter_CU_range_lists_ex is observed on unit blocks whose body is exactly their lists back to back',
     'range BaseAddressEntry has no entry_length field in the API: only offset and base address are compared',
     'an empty offset table is reported by iter_CUs as False (API convention, mirrored by the spec)',
@@ -219,8 +221,10 @@ def _list_items(its):
     return [it for it in its if it[0] == 'list']
 
 
-def gen_file(rng, size, indexed=False, dense=False):
+def gen_file(rng, size, indexed=False, dense=False, overlap=False):
     """One whole-file scenario (see module docstring).  size: 0 small .. 2 large.
+    overlap: debugging entries and offset-table slots also designate lists that start at the 2nd.. entry of another
+    list (tail sharing: ['sub', name, section, form, unit block|None, list, entry, slot|None]).
     indexed: favour v5 sections with non-empty offset tables referenced through DW_FORM_loclistx/rnglistx.
     dense: a DWARF 2-4 file whose .debug_loc/.debug_ranges hold 2.. lists back to back (no gaps), referenced
     by many debugging entries."""
@@ -230,12 +234,13 @@ def gen_file(rng, size, indexed=False, dense=False):
     has5 = not dense and ((not has4) or rng.random() < 0.5)
     nl = [1, 3, 5][size]
     sc = {'le': le, 'asz': asz}
+    nlen = (lambda: rng.choice([2, 2, 3, 4, 6])) if overlap else (lambda: _nlen(rng))
     if dense:
         sc['loc4'] = _items(rng, lambda: gen_v4loc(rng, asz, _nlen(rng)), True, rng.randint(2, nl + 2), gaps=False)
         sc['rng4'] = _items(rng, lambda: gen_v4rng(rng, asz, _nlen(rng)), False, rng.randint(2, nl + 2), gaps=False)
     elif has4:
-        sc['loc4'] = _items(rng, lambda: gen_v4loc(rng, asz, _nlen(rng)), True, rng.randint(0, nl)) if rng.random() < 0.85 else None
-        sc['rng4'] = _items(rng, lambda: gen_v4rng(rng, asz, _nlen(rng)), False, rng.randint(0, nl)) if rng.random() < 0.85 else None
+        sc['loc4'] = _items(rng, lambda: gen_v4loc(rng, asz, nlen()), True, rng.randint(0, nl)) if rng.random() < 0.85 else None
+        sc['rng4'] = _items(rng, lambda: gen_v4rng(rng, asz, nlen()), False, rng.randint(0, nl)) if rng.random() < 0.85 else None
         if sc['loc4'] is None and sc['rng4'] is None:
             sc['loc4'] = _items(rng, lambda: gen_v4loc(rng, asz, _nlen(rng)), True, 1)
     else:
@@ -261,12 +266,17 @@ def gen_file(rng, size, indexed=False, dense=False):
                 else:
                     cnt = rng.choice([0, 0, 1, nlist, nlist + 2, rng.randint(0, 6)]) if nlist else 0
                 index = [rng.randrange(nlist) for _ in range(cnt)]
+                if overlap:        # some slots designate the tail of a list: [list, entry]
+                    for j, li in enumerate(index):
+                        n = len(_list_items(its)[li][2])
+                        if n >= 2 and rng.random() < 0.5:
+                            index[j] = [li, rng.randint(1, n - 1)]
                 us.append([rng.random() < 0.3, 5, asz, 0, index, its, ti])
             return us
-        sc['loc5'] = units(lambda ntbl: gen_lle(rng, asz, ntbl, _nlen(rng)), True, False) if rng.random() < 0.8 else None
-        sc['rng5'] = units(lambda ntbl: gen_rle(rng, asz, ntbl, _nlen(rng)), False, True) if rng.random() < 0.8 else None
+        sc['loc5'] = units(lambda ntbl: gen_lle(rng, asz, ntbl, nlen()), True, False) if rng.random() < 0.8 else None
+        sc['rng5'] = units(lambda ntbl: gen_rle(rng, asz, ntbl, nlen()), False, True) if rng.random() < 0.8 else None
         if sc['loc5'] is None and sc['rng5'] is None:
-            sc['rng5'] = units(lambda ntbl: gen_rle(rng, asz, ntbl, _nlen(rng)), False, True)
+            sc['rng5'] = units(lambda ntbl: gen_rle(rng, asz, ntbl, nlen()), False, True)
     else:
         sc['tables'] = []
         sc['loc5'] = sc['rng5'] = None
@@ -345,6 +355,33 @@ def gen_file(rng, size, indexed=False, dense=False):
             form = 'DW_FORM_sec_offset' if ver == 4 else rng.choice(['DW_FORM_data4', 'DW_FORM_data8'])
             return ['rng4', form, li]
 
+        def sub_ref(loc):
+            """a reference to the tail of a list: [section, form, unit block|None, list, entry, slot|None], or None"""
+            if ver >= 5:
+                sec, base_u = ('loc5', lu) if loc else ('rng5', ru)
+                if not sc[sec]:
+                    return None
+                cands = [(ui, li, len(it[2])) for ui, u in enumerate(sc[sec]) if u[6] == cu['table']
+                         for li, it in enumerate(_list_items(u[5])) if len(it[2]) >= 2]
+                if not cands:
+                    return None
+                ui, li, n = rng.choice(cands)
+                u = sc[sec][ui]
+                slots = [j for j, x in enumerate(u[4]) if isinstance(x, list) and x[0] == li]
+                if ui == base_u and slots and rng.random() < 0.7:
+                    j = rng.choice(slots)
+                    return [sec, 'DW_FORM_loclistx' if loc else 'DW_FORM_rnglistx', ui, li, u[4][j][1], j]
+                return [sec, 'DW_FORM_sec_offset', ui, li, rng.randint(1, n - 1), None]
+            sec = 'loc4' if loc else 'rng4'
+            if (not loc and ver < 3) or not sc[sec]:
+                return None
+            cands = [(li, len(it[2])) for li, it in enumerate(_list_items(sc[sec])) if len(it[2]) >= 2]
+            if not cands:
+                return None
+            li, n = rng.choice(cands)
+            form = 'DW_FORM_sec_offset' if ver == 4 else rng.choice(['DW_FORM_data4', 'DW_FORM_data8'])
+            return [sec, form, None, li, rng.randint(1, n - 1), None]
+
         def die_attrs(is_top):
             attrs = []
             names = set()
@@ -367,7 +404,16 @@ def gen_file(rng, size, indexed=False, dense=False):
                     attrs.extend([a, v] if rng.random() < 0.6 else [v, a])
                 else:
                     attrs.append(a)
-            if rng.random() < 0.6:
+            if overlap and rng.random() < 0.6:
+                r = sub_ref(True)
+                name = rng.choice(LOC_ATTRS if ver >= 4 else LOC_ATTRS[:8] if ver == 3 else LOC_ATTRS[:7])
+                if r is not None and name not in names:
+                    names.add(name)
+                    attrs.append(['sub', name] + r)
+            r = sub_ref(False) if overlap and rng.random() < 0.5 else None
+            if r is not None:
+                attrs.append(['sub', 'DW_AT_ranges'] + r)
+            elif rng.random() < 0.6:
                 r = rng_ref()
                 if r is not None:
                     attrs.append(['ref', 'DW_AT_ranges'] + r)
@@ -414,7 +460,8 @@ def gen_script(rng, a, focus=False):
        sched = [[simple...] after yield 0, [simple...] after yield 1, ...]"""
     le, asz, loc4, rng4, tables, loc5, rng5, cus = a
     ncu = len(cus)
-    fetchables = [[k, d, at[1]] for k, cu in enumerate(cus) for d, attrs in enumerate(cu[3]) for at in attrs if at[0] == 'ref']
+    fetchables = [[k, d, at[1]] for k, cu in enumerate(cus) for d, attrs in enumerate(cu[3]) for at in attrs
+                  if at[0] in ('ref', 'sub')]
     ex_lists = [[ui, li] for ui, u in enumerate(rng5 or []) for li in range(len(_list_items(u[5])))]
     contiguous = [ui for ui, u in enumerate(rng5 or []) if all(it[0] == 'list' and not it[1] for it in u[5])]
 
@@ -436,10 +483,12 @@ def gen_script(rng, a, focus=False):
         return [[simple(p) for _ in range(rng.choice([0, 1, 1, 2]))] for _ in range(rng.randint(0, 6))]
 
     def target(at):
+        if at[0] == 'sub':
+            return (at[2], at[4], at[5])
         return (at[2], None, at[4]) if at[2] in ('loc4', 'rng4') else (at[2], at[4], at[5])
     # every reference of the debugging entries: (unit is v5, section, item, fetch op or None for a locviews reference)
-    refs = [(cu[0] >= 5, target(at), [k, d, at[1]] if at[0] == 'ref' else None)
-            for k, cu in enumerate(cus) for d, attrs in enumerate(cu[3]) for at in attrs if at[0] in ('ref', 'views')]
+    refs = [(cu[0] >= 5, target(at), [k, d, at[1]] if at[0] != 'views' else None)
+            for k, cu in enumerate(cus) for d, attrs in enumerate(cu[3]) for at in attrs if at[0] in ('ref', 'views', 'sub')]
 
     def sched_other(sec, gen_):
         """after the i-th yield of the enumeration of section sec, fetch through a DIE attribute an item of the SAME
@@ -535,6 +584,23 @@ def gen(ctx):
         for _ in range(n):
             a = gen_file(rng, size, dense=True)[1]
             cases.append(('session', [a, gen_script(rng, a, focus=True)]))
+    # ---- tail sharing: offsets (attributes, offset-table slots) that designate the 2nd.. entry of another list
+    for size, n in ((1, 25 * T), (2, 15 * T)):
+        for _ in range(n):
+            cases.append(tuple(gen_file(rng, size, indexed=rng.random() < 0.6, overlap=True)))
+    for size, n in ((1, 25 * T), (2, 15 * T)):
+        for _ in range(n):
+            a = gen_file(rng, size, indexed=rng.random() < 0.6, overlap=True)[1]
+            cases.append(('session', [a, gen_script(rng, a)]))
+    # ---- long pre-v5 lists (entry offsets and lengths of every entry, far into the list)
+    sizes = [129, 130, 257, 1000]
+    for i, (le, asz) in enumerate([(True, 4), (False, 8), (True, 8), (False, 4)]):
+        for n in (sizes if T > 1 else [sizes[i]]):
+            cases.append(('list4', ['rng', le, asz, _bytes(rng, rng.choice([0, 5, 16])), gen_v4rng(rng, asz, n), _bytes(rng, 3)]))
+        for n in (sizes if T > 1 else [sizes[(i + 1) % 4]]):
+            ents = gen_v4loc(rng, asz, n)
+            ents = [['loc', e[1], e[2], e[3][:6]] if e[0] == 'loc' else e for e in ents]
+            cases.append(('list4', ['loc', le, asz, _bytes(rng, rng.choice([0, 5, 16])), ents, _bytes(rng, 3)]))
     # ---- classification: every name x version, all forms in one case
     for v in (2, 3, 4, 5):
         cases.append(('classify', [v]))
@@ -780,6 +846,13 @@ def _assemble(a, s, built):
                     out.append((name, 'DW_FORM_sec_offset', v, None))
                 elif at[0] == 'lit':
                     out.append((at[1], at[2], at[3], None))
+                elif at[0] == 'sub':
+                    role, name, sec, form, ui, li, ent, k = at
+                    tgt = ('sub', sec, ui, li, ent)
+                    if form in ('DW_FORM_loclistx', 'DW_FORM_rnglistx'):
+                        out.append((name, form, k, tgt))
+                    else:
+                        out.append((name, form, _designated(f, tgt)[0][1], tgt))
                 else:
                     role, name, sec, form = at[0], at[1], at[2], at[3]
                     if sec in ('loc4', 'rng4'):
@@ -815,6 +888,13 @@ def _expect_of(f, tgt):
     return f[sec][li] if ui is None else f[sec][ui]['expect'][li]
 
 
+def _designated(f, tgt):
+    """the entries a 'list' / 'sub' target designates through a fetch (view pairs are never part of a fetch)"""
+    e = _expect_of(f, tgt[1:4])
+    ents = e[2][_nviews(f, tgt[1:4]):]
+    return ents[tgt[4]:] if tgt[0] == 'sub' else ents
+
+
 def _nviews(f, tgt):
     sec, ui, li = tgt
     its = f['a'][{'loc4': 2, 'rng4': 3, 'loc5': 5, 'rng5': 6}[sec]]
@@ -831,17 +911,15 @@ def _enum_expected_req(f, gen_, ranges):
         for d in f['cus'][ci]['meta']:
             has_views = any(t is not None and t[0] == 'views' for _, _, _, t in d)
             for name, form, raw, tgt in d:
-                if ranges:
-                    if tgt is not None and name == 'DW_AT_ranges':
-                        refs.add(_expect_of(f, tgt[1:])[0])
+                if tgt is None or ranges != (name == 'DW_AT_ranges'):
                     continue
-                if tgt is None or name == 'DW_AT_ranges':
-                    continue
-                if tgt[0] == 'views' or not (has_views and name == 'DW_AT_location'):
+                if tgt[0] == 'sub':
+                    refs.add(_designated(f, tgt)[0][1])          # the offset of the entry the tail starts with
+                elif ranges or tgt[0] == 'views' or not (has_views and name == 'DW_AT_location'):
                     refs.add(_expect_of(f, tgt[1:])[0])
     key = {(4, False): 'loc4', (4, True): 'rng4', (5, False): 'loc5', (5, True): 'rng5'}[(gen_, ranges)]
     flat = f[key] if gen_ == 4 else [e for u in f[key] for e in u['expect']]
-    return ['enum_expected', sorted(refs), flat]
+    return ['enum_designated', sorted(refs), flat]
 
 
 def _plan_observations(f, reqs):
@@ -864,12 +942,10 @@ def _plan_observations(f, reqs):
                 mval = f['mvals'][ci]
                 val = mval[1][di][ai] if mval[0] == 'ok' else None
                 if name == 'DW_AT_ranges' and tgt is not None:
-                    e = _expect_of(f, tgt[1:])
-                    plan.append(('get_range_list_at_offset', len(reqs), _ok(e[2])))
+                    plan.append(('get_range_list_at_offset', len(reqs), _ok(_designated(f, tgt))))
                     reqs.append(['m_get_rng', secs, 5 if ver >= 5 else 4, val if val is not None else 0, _cuinfo(f, ci)])
-                elif tgt is not None and tgt[0] == 'list':
-                    e = _expect_of(f, tgt[1:])
-                    entries = e[2][_nviews(f, tgt[1:]):]
+                elif tgt is not None and tgt[0] in ('list', 'sub'):
+                    entries = _designated(f, tgt)
                     plan.append(('parse_from_attribute', len(reqs), _ok(entries)))
                     reqs.append(['m_get_loc', secs, 5 if ver >= 5 else 4, val if val is not None else 0, _cuinfo(f, ci)])
                 elif tgt is None and name not in ('DW_AT_addr_base', 'DW_AT_loclists_base', 'DW_AT_rnglists_base'):
@@ -1041,7 +1117,7 @@ def _observe_impl(f):
                 if name == 'DW_AT_ranges' and tgt is not None:
                     out.append(('get_range_list_at_offset',
                                 dies if attr is None else c_tups(impl_call(rl.get_range_list_at_offset, attr.value, cus[ci]))))
-                elif tgt is not None and tgt[0] == 'list':
+                elif tgt is not None and tgt[0] in ('list', 'sub'):
                     out.append(('parse_from_attribute',
                                 dies if attr is None else c_tups(impl_call(parser.parse_from_attribute, attr, ver, die))))
                 elif tgt is None and name not in ('DW_AT_addr_base', 'DW_AT_loclists_base', 'DW_AT_rnglists_base'):
@@ -1185,8 +1261,7 @@ def _spec_simple(f, h, reqs):
         return lambda ans: [['get_range_list_at_offset_ex', [c_sorted_container(c) for c in ans[slot]]]]
     k, d, name = h[1:]
     tgt = [t for n, fm, raw, t in f['cus'][k]['meta'][d] if n == name][0]
-    e = _expect_of(f, tgt[1:])
-    val = e[2] if name == 'DW_AT_ranges' else e[2][_nviews(f, tgt[1:]):]
+    val = _designated(f, tgt)
     return lambda ans: [['fetch', val]]
 
 
